@@ -31,3 +31,38 @@ Theorem c09_truncate_only_to_root : forall f size f' e m, revert_bytes f size = 
   (e = 0 /\ f' = [] /\ m = []) \/ (root_at f e = Some m /\ f' = firstn (Z.to_nat e) f /\ e <= size).
 Proof. exact DiskCor.revert_truncates_to_root. Qed.
 Print Assumptions c09_truncate_only_to_root.
+
+(* ---------------------------------------------------------------------------------------------- *)
+(* REGENERATED FROM THE SOURCE ON EVERY RUN (Decisions.v): every record goes to the offset read from Store.size at the
+   moment of the write (after the before-write hook has run), and FlushRevert truncates once, after its scan *)
+From GK Require Import GExpr Decisions.
+From Coq Require Import List.
+Import ListNotations.
+
+Theorem c09_item_write_order_is_source :
+  let l := call_list "itemLoc.write" in
+  before "c.store.callbacks.BeforeItemWrite" "atomic.LoadInt64" l = true /\
+  before "atomic.LoadInt64" "c.store.file.WriteAt" l = true /\
+  before "c.store.file.WriteAt" "c.store.ItemValWrite" l = true /\
+  before "c.store.ItemValWrite" "atomic.StoreInt64" l = true /\
+  before "atomic.StoreInt64" "iloc.setLoc" l = true /\
+  before "iItem.NumValBytes" "c.store.file.WriteAt" l = true /\
+  before "c.store.callbacks.BeforeItemWrite" "iItem.NumValBytes" l = true.
+Proof. exact Decisions.item_write_order. Qed.
+Print Assumptions c09_item_write_order_is_source.
+
+Theorem c09_node_write_order_is_source :
+  let l := call_list "nodeLoc.write" in
+  before "o.getSize" "o.file.WriteAt" l = true /\
+  before "o.file.WriteAt" "o.setSize" l = true /\
+  before "o.setSize" "nloc.setLoc" l = true.
+Proof. exact Decisions.node_write_order. Qed.
+Print Assumptions c09_node_write_order_is_source.
+
+Theorem c09_revert_order_is_source :
+  let l := call_list "Store.FlushRevert" in
+  before "s.readRootsScan" "s.file.Truncate" l = true /\
+  count_occ string_dec l "s.file.Truncate" = 1%nat /\
+  before "atomic.AddInt64" "s.readRootsScan" l = true.
+Proof. exact Decisions.revert_order. Qed.
+Print Assumptions c09_revert_order_is_source.
